@@ -112,8 +112,55 @@ def pythonize(ann, v, depth=0):
     return v
 
 
-def hints(fn_or_cls):
+def _resolve(ann, ns, depth=0):
+    """Evaluate forward references WITHOUT typing's ForwardRef cache (typing interns Union['A', 'B'] across all
+    generated packages of one process, and a ForwardRef remembers the first class it was evaluated to)."""
+    if depth > 12:
+        return ann
+    if isinstance(ann, str):
+        try:
+            return _resolve(eval(ann, ns), ns, depth + 1)  # noqa: S307
+        except Exception:  # noqa: BLE001
+            return typing.ForwardRef(ann) if ann.isidentifier() else ann
+    if isinstance(ann, typing.ForwardRef):
+        try:
+            return _resolve(eval(ann.__forward_arg__, ns), ns, depth + 1)  # noqa: S307
+        except Exception:  # noqa: BLE001
+            return ann
+    origin = typing.get_origin(ann)
+    args = typing.get_args(ann)
+    if origin is None or not args or origin is typing.Literal:
+        return ann
+    new = tuple(_resolve(a, ns, depth + 1) for a in args)
     try:
-        return typing.get_type_hints(fn_or_cls)
+        if origin is typing.Union:
+            return typing.Union[new]
+        if origin in (list, set, frozenset, type):
+            return origin[new[0]]
+        if origin is tuple or origin is dict:
+            return origin[new]
+        import collections.abc
+        if origin is collections.abc.Mapping:
+            return typing.Mapping[new]
+        return origin[new if len(new) > 1 else new[0]]
     except Exception:  # noqa: BLE001
-        return dict(getattr(fn_or_cls, "__annotations__", {}))
+        return ann
+
+
+def hints(fn_or_cls):
+    """Annotations of a generated function or class with forward references resolved against the defining module and,
+    for names imported only under TYPE_CHECKING, against the sibling ``models`` package."""
+    import sys
+    raw = dict(getattr(fn_or_cls, "__annotations__", {}) or {})
+    modname = getattr(fn_or_cls, "__module__", None)
+    mod = sys.modules.get(modname) if modname else None
+    ns = dict(vars(mod)) if mod is not None else {}
+    if modname:
+        top = modname.split(".")[0]
+        models = sys.modules.get(top + ".models")
+        if models is not None:
+            for k, v in vars(models).items():
+                ns.setdefault(k, v)
+    if isinstance(fn_or_cls, type):
+        ns.setdefault(fn_or_cls.__name__, fn_or_cls)
+    return {k: _resolve(v, ns) for k, v in raw.items()}
